@@ -453,6 +453,7 @@ pub fn run_check<C: Check>(check: C, args: &Args) -> i32 {
                         failure_persistence: None,
                         max_shrink_iters: check.max_shrink_iters(),
                         max_global_rejects: 1_000_000,
+                        max_shrink_time: 180_000,
                         ..Config::default()
                     };
                     let mut runner = TestRunner::new_with_rng(config, TestRng::from_seed(RngAlgorithm::ChaCha, &seed_bytes));
